@@ -174,6 +174,13 @@ func DecodeFile(r io.Reader, options ...Option) (*File, error) {
 	// The position of the next box is what has been consumed from the input, not the sum of the (re-calculated)
 	// box sizes: a box read with a 16-byte header, or with trailing bytes, has a smaller Size() than it occupies.
 	cr := &countingReader{r: r}
+	// Positions are relative to where decoding starts, in both modes, also when the reader is not at offset 0.
+	var startOffset int64
+	if rs != nil {
+		if pos, err := rs.Seek(0, io.SeekCurrent); err == nil {
+			startOffset = pos
+		}
+	}
 
 LoopBoxes:
 	for {
@@ -239,8 +246,8 @@ LoopBoxes:
 		boxStartPos += boxSize
 		switch f.fileDecMode {
 		case DecModeLazyMdat:
-			if pos, err := rs.Seek(0, io.SeekCurrent); err == nil {
-				boxStartPos = uint64(pos)
+			if pos, err := rs.Seek(0, io.SeekCurrent); err == nil && pos >= startOffset {
+				boxStartPos = uint64(pos - startOffset)
 			}
 		case DecModeNormal:
 			boxStartPos = cr.n
